@@ -240,7 +240,7 @@ func c19Pure(r *vkit.Run, caseNo int) {
 	}
 	r.Event("pure_times_evaluated", int64(len(ts)))
 	r.Case(key.String(), len(rpi.ShardGroups) >= 2 && mixed)
-	if caseNo%97 == 0 && r.WantSample() {
+	if caseNo%97 == 0 && caseNo < 194 && r.WantSample() {
 		r.Sample(map[string]any{"part": "pure", "case": caseNo, "mode": mode, "retention": d.String(), "layout": c19Layout(rpi.ShardGroups), "times": len(ts)})
 	}
 }
@@ -577,7 +577,7 @@ func c19Write(r *vkit.Run, caseNo int) {
 		sawAccept = true
 	}
 	r.Case(key.String(), sawDrop && sawAccept)
-	if caseNo%89 == 0 && r.WantSample() {
+	if caseNo%89 == 0 && caseNo < 178 && r.WantSample() {
 		var desc []string
 		for _, p := range pts {
 			_, a := acc[string(p.p.Key())]
@@ -958,9 +958,27 @@ func TestC19(t *testing.T) {
 		"a group whose end+D equals t exactly may or may not be reported (statement: 'only when'; code: strict <)",
 		"shards of groups that were already marked deleted before the check, and in-use shards, are outside the verdict (either)")
 	r.Trust("inmem.KVStore; the recording TSDBStore and the recording wrapper around meta.Client (pass-through)")
-	nPure := r.N(3000, 60000)
-	nWrite := r.N(1500, 50000)
-	nSvc := r.N(1500, 50000)
+	if seed, caseNo, part, ok := metaReplay(); ok {
+		// re-run the recorded case of the recorded part (plus its neighbour); the write and service
+		// parts place their inputs relative to the current time, so a replay re-creates the same
+		// offsets, not the same absolute instants
+		r.Seed = seed
+		for _, c := range []int{caseNo, caseNo + 1} {
+			switch part {
+			case "pure":
+				c19Pure(r, c)
+			case "service":
+				c19Service(r, c)
+			default:
+				c19Write(r, c)
+			}
+		}
+		r.Sample(map[string]any{"replayed_case": caseNo, "part": part, "seed": seed})
+		return
+	}
+	nPure := r.N(3000, 200000)
+	nWrite := r.N(1500, 200000)
+	nSvc := r.N(1500, 150000)
 	for i := 0; i < nPure; i++ {
 		c19Pure(r, i)
 	}
